@@ -705,77 +705,128 @@ impl Xot {
     /// # Ok::<(), xot::Error>(())
     /// ```
     pub fn deduplicate_namespaces(&mut self, node: Node) {
-        let mut fullname_serializer = FullnameSerializer::new(self, self.base_prefixes().into_iter().collect());
-        let mut fixup_nodes = Vec::new();
-        let mut deduplicate_tracker = DeduplicateTracker::new();
-        // determine nodes we need to fix up
-        for edge in self.traverse(node) {
+        // Removing a declaration further down can make a declaration higher
+        // up removable, so repeat until nothing changes; a second call then
+        // has nothing left to do.
+        loop {
+            let mut removed = false;
+            let elements = self
+                .descendants(node)
+                .filter(|n| self.is_element(*n))
+                .collect::<Vec<_>>();
+            for element in elements {
+                for (prefix_id, namespace_id) in self.namespace_declarations(element) {
+                    if self.is_superfluous_declaration(node, element, prefix_id, namespace_id) {
+                        self.namespaces_mut(element).remove(prefix_id);
+                        removed = true;
+                    }
+                }
+            }
+            if !removed {
+                break;
+            }
+        }
+    }
+
+    // The bindings in effect just inside the start tag of `element`, taking
+    // only declarations from `top` downwards into account (as the serializer
+    // would track them).
+    fn fullname_serializer_at(&self, top: Node, element: Node) -> FullnameSerializer {
+        let mut fullname_serializer =
+            FullnameSerializer::new(self, self.base_prefixes().into_iter().collect());
+        let mut path = self
+            .ancestors(element)
+            .skip(1)
+            .take_while(|ancestor| element != top && self.is_element(*ancestor))
+            .collect::<Vec<_>>();
+        if let Some(position) = path.iter().position(|ancestor| *ancestor == top) {
+            path.truncate(position + 1);
+        }
+        for ancestor in path.into_iter().rev() {
+            self.push_element_scope(&mut fullname_serializer, ancestor, None);
+        }
+        fullname_serializer
+    }
+
+    // Enter the scope of an element the way the serializer does, optionally
+    // leaving out one of its declarations.
+    fn push_element_scope(
+        &self,
+        fullname_serializer: &mut FullnameSerializer,
+        element: Node,
+        without: Option<PrefixId>,
+    ) {
+        let declarations = self
+            .namespace_declarations(element)
+            .into_iter()
+            .filter(|(prefix_id, _)| Some(*prefix_id) != without)
+            .collect();
+        fullname_serializer.push(declarations);
+        // an element without namespace undeclares the default namespace
+        let name = self.get_element_name(element);
+        if self.namespace_for_name(name) == self.no_namespace()
+            && fullname_serializer.has_default_namespace()
+        {
+            fullname_serializer.add_empty_prefix(self.no_namespace());
+        }
+    }
+
+    // For every element and attribute name at or below `element`, whether it
+    // can be written - with the declaration of `without` on `element` left out.
+    fn writable_names(&self, top: Node, element: Node, without: Option<PrefixId>) -> Vec<bool> {
+        let mut fullname_serializer = self.fullname_serializer_at(top, element);
+        let mut writable = Vec::new();
+        for edge in self.traverse(element) {
             match edge {
                 NodeEdge::Start(node) => {
-                    if self.is_element(node) {
-                        // an attribute in a namespace *has* to have a non-empty
-                        // prefix. This means we cannot remove a prefix if that
-                        // prefix overlaps with a previously defined default
-                        // namespace: that's fine for elements which fall
-                        // in the default namespace, but not for attributes.
-                        // The tracker keeps track of all this.
-                        deduplicate_tracker.push(self, node);
-                        // we don't need to remove the fixed up prefixes because
-                        // as duplicates they will definitely exist.
-                        // In fact if we remove them first the push will fail to create
-                        // a new entry in the namespace stack, as prefixes can become empty
-                        fullname_serializer.push(self.namespace_declarations(node));
+                    if let Some(value) = self.element(node) {
+                        let without = if node == element { without } else { None };
+                        self.push_element_scope(&mut fullname_serializer, node, without);
+                        writable.push(fullname_serializer.element_fullname(value.name()).is_ok());
+                        for name_id in self.attributes(node).keys() {
+                            writable.push(fullname_serializer.attribute_fullname(name_id).is_ok());
+                        }
                     }
                 }
                 NodeEdge::End(node) => {
                     if self.is_element(node) {
-                        // to_prefix is only used to determine whether to pop
-                        // so should be okay to send here
                         fullname_serializer.pop(self.has_namespace_declarations(node));
-                        deduplicate_tracker.pop();
-                        // if we already know a namespace, remove it
-                        // we do this at the end so the deduplicate tracker
-                        // has had a change to do its work for sub-elements
-                        let namespaces = self.namespaces(node);
-                        let to_remove = namespaces
-                            .iter()
-                            .filter_map(|(_, namespace_id)| {
-                                if fullname_serializer.is_namespace_known(*namespace_id)
-                                    && deduplicate_tracker.is_safe_to_remove(*namespace_id)
-                                {
-                                    Some(*namespace_id)
-                                } else {
-                                    None
-                                }
-                            })
-                            .collect::<Vec<_>>();
-                        if !to_remove.is_empty() {
-                            fixup_nodes.push((node, to_remove.clone()));
-                        }
                     }
                 }
             }
         }
-        // now actually fix up the nodes, removing superfluous namespaces
-        // TODO: this whole thing is a bit a multi-step mess. Perhaps
-        // direct namespace node access would help.
-        let mut fixup_prefixes = Vec::new();
-        for (node, to_remove) in fixup_nodes {
-            let namespaces = self.namespaces(node);
-            for namespace_id in to_remove {
-                let prefixes_to_remove = namespaces
-                    .iter()
-                    .filter(|(_, ns)| **ns == namespace_id)
-                    .map(|(prefix, _)| prefix);
-                fixup_prefixes.push((node, prefixes_to_remove.collect::<Vec<_>>()));
-            }
+        writable
+    }
+
+    // A declaration is superfluous if its namespace is already known from an
+    // ancestor (or it restates what is in scope anyway) *and* every name at or
+    // below the element that can be written with it can still be written
+    // without it: an attribute keeps a real prefix, and the other binding of
+    // the namespace is not shadowed somewhere on the way down.
+    fn is_superfluous_declaration(
+        &self,
+        top: Node,
+        element: Node,
+        prefix_id: PrefixId,
+        namespace_id: NamespaceId,
+    ) -> bool {
+        if element == top {
+            return false;
         }
-        for (node, prefix) in fixup_prefixes {
-            let mut namespaces = self.namespaces_mut(node);
-            for prefix in prefix {
-                namespaces.remove(prefix);
-            }
+        let outer = self.fullname_serializer_at(top, element);
+        let known_outside = if namespace_id == self.no_namespace() {
+            prefix_id == self.empty_prefix() && !outer.has_default_namespace()
+        } else {
+            outer.is_namespace_known(namespace_id)
+        };
+        if !known_outside {
+            return false;
         }
+        let with = self.writable_names(top, element, None);
+        let without = self.writable_names(top, element, Some(prefix_id));
+        with.iter()
+            .zip(without.iter())
+            .all(|(with, without)| !*with || *without)
     }
 
     pub(crate) fn prefixes_in_scope(&self, node: Node) -> Prefixes {
@@ -833,56 +884,6 @@ impl Xot {
         let mut prefixes = Prefixes::new();
         prefixes.insert(self.xml_prefix_id, self.xml_namespace_id);
         prefixes
-    }
-}
-
-struct DeduplicateTracker {
-    stack: Vec<DeduplicateTrackerEntry>,
-}
-
-struct DeduplicateTrackerEntry {
-    default_namespace: Option<NamespaceId>,
-    in_use_by_attribute: bool,
-}
-
-impl DeduplicateTracker {
-    fn new() -> Self {
-        Self { stack: Vec::new() }
-    }
-
-    fn push(&mut self, xot: &Xot, node: Node) {
-        let namespaces = xot.namespaces(node);
-        let default_namespace = namespaces.get(xot.empty_prefix());
-        self.stack.push(DeduplicateTrackerEntry {
-            default_namespace: default_namespace.copied(),
-            in_use_by_attribute: false,
-        });
-        for attribute_name in xot.attributes(node).keys() {
-            self.attribute_name(xot, attribute_name);
-        }
-    }
-
-    fn pop(&mut self) {
-        self.stack.pop();
-    }
-
-    fn attribute_name(&mut self, xot: &Xot, name: NameId) {
-        let namespace = xot.namespace_for_name(name);
-        for entry in self.stack.iter_mut().rev() {
-            if entry.default_namespace == Some(namespace) {
-                entry.in_use_by_attribute = true;
-                return;
-            }
-        }
-    }
-
-    fn is_safe_to_remove(&self, namespace: NamespaceId) -> bool {
-        for entry in self.stack.iter().rev() {
-            if entry.default_namespace == Some(namespace) {
-                return !entry.in_use_by_attribute;
-            }
-        }
-        true
     }
 }
 
